@@ -492,7 +492,8 @@ def _worker_chunk(args):
 def _one_run(check, seed, tier, idx):
     if True:
         try:
-            case = check.generate(seed, tier)
+            gi = getattr(check, "generate_idx", None)
+            case = gi(seed, tier, idx) if gi else check.generate(seed, tier)
             r = check.execute(case)
             rec = {
                 "idx": idx,
@@ -809,7 +810,8 @@ def main(check: Check, script: str):
             check.setup()
             for i in range(a.digests):
                 seed = run_seed(env_seed(), check.pid, i)
-                case_ = check.generate(seed, tier)
+                gi = getattr(check, "generate_idx", None)
+                case_ = gi(seed, tier, i) if gi else check.generate(seed, tier)
                 r = in_fork(lambda: check.execute(case_), timeout=check.run_timeout_s) if check.isolate else check.execute(case_)
                 print(f"DIGEST {i} {r.get('digest')} {r.get('steps')} {vclass(r['violation']) if r.get('violation') else '-'}")
             sys.exit(EXIT_OK)
